@@ -36,6 +36,14 @@ var propDefs = map[string]*PropDef{
 		},
 		Assume: []string{"map iteration is modelled with a ghost set of delivered keys (every key delivered exactly once)"},
 	},
+	"C11": {
+		ID: "C11", Kinds: []string{"effect", "callers"}, Funcs: "all", Floor: 10,
+		Unmech: []string{
+			"'nothing else is read' for whole executions follows from the effect obligations (no file-system primitive is called outside TemplateLoader methods) by induction over the call graph",
+			"equal renderings of static and lazy include for rooted names follow from both computing FromFile(resolveFilename(T, name)) (proved at the call sites) and the loader's Abs ignoring T for rooted names (loader's contract)",
+		},
+		Assume: []string{"loaders are deterministic: Abs and the success of Get are uninterpreted functions of (loader, arguments); what a loader does with '..' is the loader's business", "path algebra (filepath.Join/Dir/IsAbs) is uninterpreted"},
+	},
 	"C04": {
 		ID: "C04", Kinds: []string{"frame"}, Funcs: "exec", Floor: 100,
 		Unmech: []string{
